@@ -3,8 +3,10 @@ import json, subprocess
 from common import *
 
 
-def step(wait, *send, close=False, stall_ms=0, slow_us=0):
+def step(wait, *send, close=False, stall_ms=0, slow_us=0, pre_ms=0):
     d = {"wait": wait, "send": [hx(x) for x in send]}
+    if pre_ms:
+        d["pre_ms"] = pre_ms
     if slow_us:
         d["slow_us"] = slow_us
     if close:
